@@ -297,10 +297,10 @@ def rot_cases(draw):
 
 def subs(tier):
     return [
-        Sub("weights", weights_cases(), run_weights, quick=1024, thorough=4096, enum=weights_enum),
-        Sub("shift", shift_cases(), run_shift, quick=1500, thorough=60000),
-        Sub("poly", poly_cases(), run_poly, quick=1500, thorough=60000),
-        Sub("rot", rot_cases(), run_rot, quick=300, thorough=6000),
+        Sub("weights", weights_cases(), run_weights, quick=5120, thorough=4096, enum=weights_enum),
+        Sub("shift", shift_cases(), run_shift, quick=7500, thorough=60000),
+        Sub("poly", poly_cases(), run_poly, quick=7500, thorough=60000),
+        Sub("rot", rot_cases(), run_rot, quick=1500, thorough=6000),
     ]
 
 
